@@ -164,3 +164,56 @@ func VerifH_C02_api_dense() { verifAttrScript(2, 9, 2) }
 func VerifH_C02_api_compact3_thorough() { verifAttrScript(2, 2, 3) }
 func VerifH_C02_api_threshold3_thorough() { verifAttrScript(2, 7, 3) }
 func VerifH_C02_api_dense3_thorough() { verifAttrScript(3, 9, 3) }
+
+// dense storage shrunk to a single attribute, then size-changing overwrite and additions (the heap becomes empty
+// in the middle of a delete-then-insert overwrite)
+func VerifH_C02_api_dense_singleton() {
+	fw, err := CreateForWrite("c02s.h5", CreateTruncate)
+	vrt.AssertNoErr(err, "create-ok")
+	ds, err := fw.CreateDataset("/d", Int32, []uint64{1})
+	vrt.AssertNoErr(err, "create-dataset-ok")
+	vrt.AssertNoErr(ds.Write([]int32{7}), "write-ok")
+	names := []string{"a0", "a1", "a2", "a3", "a4", "a5", "a6", "a7", "a8"}
+	for i, n := range names {
+		vrt.AssertNoErr(ds.WriteAttribute(n, int32(i)), "prefix-attr-write-ok")
+	}
+	keep := vrt.Choice(2) // which attribute survives: the first or the last written
+	kept := names[0]
+	if keep == 1 {
+		kept = names[8]
+	}
+	for _, n := range names {
+		if n != kept {
+			vrt.AssertNoErr(ds.DeleteAttribute(n), "delete-present-ok")
+		}
+	}
+	model := map[string]verifAttr{}
+	// overwrite the survivor with a value of another size (symbolic content), then add attributes
+	mv, val := verifAttrValue()
+	vrt.AssertNoErr(ds.WriteAttribute(kept, val), "overwrite-singleton-ok")
+	model[kept] = mv
+	nadd := 1 + vrt.Choice(2)
+	added := []string{"n0", "n1"}
+	for i := 0; i < nadd; i++ {
+		x := vrt.I32()
+		vrt.AssertNoErr(ds.WriteAttribute(added[i], x), "add-after-overwrite-ok")
+		model[added[i]] = verifAttr{kind: 0, i: x}
+	}
+	vrt.AssertNoErr(fw.Close(), "close-ok")
+	f, err := Open("c02s.h5")
+	vrt.AssertNoErr(err, "reopen-ok")
+	d := verifFindDataset(f, "/d")
+	vrt.Assert(d != nil, "dataset-found-at-path")
+	list, err := d.ListAttributes()
+	vrt.AssertNoErr(err, "list-attributes-ok")
+	vrt.Assert(len(list) == len(model), "attr-count-as-model")
+	for _, n := range []string{kept, "n0", "n1"} {
+		if want, ok := model[n]; ok {
+			got, err := d.ReadAttribute(n)
+			vrt.AssertNoErr(err, "attr-read-ok")
+			verifAttrCheck(got, want)
+		}
+	}
+	vrt.Covered("attrs-compared")
+	_ = f.Close()
+}
